@@ -129,6 +129,25 @@ def unkillable_loop(ctx):
             ctx.check(ok, f'{run.qualname}:{use} on request', n, why,
                       f'`{src(par)}` on the unchecked JSON value ({state}): {why} - a datagram like b"5", b"null" or '
                       'b\'"x"\' raises ' + '/'.join(c.__name__ for c in needs) + ' and ends the responder thread', run)
+    # values taken out of the request are RAW JSON values: hashing them (membership in a set / dict) fails for lists and objects
+    for n in walk_local(loop):
+        if isinstance(n, ast.Compare) and any(isinstance(o, (ast.In, ast.NotIn)) for o in n.ops) and \
+                any(isinstance(x, ast.Name) and x.id in holders for x in ast.walk(n.left)) and not (isinstance(n.left, ast.Name) and n.left.id in holders):
+            comp = n.comparators[0]
+            hashed = isinstance(comp, (ast.Set, ast.Dict, ast.SetComp, ast.DictComp)) or (isinstance(comp, ast.Call) and dotted(comp.func) in ('set', 'frozenset', 'dict'))
+            if isinstance(comp, ast.Name):
+                e = mod.consts.get(comp.id)
+                hashed = e is None or isinstance(e, (ast.Set, ast.Dict)) or (isinstance(e, ast.Call) and dotted(e.func) in ('set', 'frozenset', 'dict'))
+                if isinstance(e, (ast.Tuple, ast.List)):
+                    hashed = False
+            nuse += 1
+            if not hashed:
+                ctx.ok(f'{run.qualname}:membership of a request value', n, 'compared by equality against a tuple / list', run)
+                continue
+            ok, why = _contained(n, [TypeError], mod, loop)
+            ctx.check(ok, f'{run.qualname}:membership of a request value', n, why,
+                      f'`{src(n)}` hashes a value taken from the datagram: {why} - a request like {{"SECoP": ["discover"]}} raises TypeError '
+                      '(unhashable type) and ends the responder thread', run)
     if not nuse:
         ctx.undecided(f'{run.qualname}:uses of request', loop, 'no use of the parsed request recognised', run)
 
@@ -159,6 +178,22 @@ def one_builder(ctx):
         b = c.args[0].func.attr
         ctx.check(b in builders, f'{init.qualname}:budget uses the builder that is sent', c,
                   f'budget and payload both come from {b}', f'budget is computed from {b}, payloads from {sorted(builders)}', init)
+        # the budget must be measured with the widest possible port
+        a = c.args[0].args[0] if c.args[0].args else None
+        v = m.const(init.module, a) if a is not None else None
+        if isinstance(a, ast.BinOp):
+            try:
+                v = eval(compile(ast.Expression(a), '<const>', 'eval'), {'__builtins__': {}})   # arithmetic on literals only
+            except Exception:
+                v = None
+        construct = f'{init.qualname}:budget measured with the widest port'
+        if isinstance(v, int) and v >= 10000:
+            ctx.ok(construct, c, f'measured with port {v} (5 digits)', init)
+        elif a is not None and any('self.ports' in src(o) for o in origins(a, init.node)) and not (isinstance(a, ast.Call) and dotted(a.func) == 'max'):
+            ctx.bad(construct, c, f'the length budget is measured with `{src(a)}` (one of the configured ports): with several tcp interfaces a later port '
+                    'with more digits makes the announcement longer than the 508 byte budget the description was truncated for', init)
+        else:
+            ctx.undecided(construct, c, f'port argument `{src(a) if a is not None else None}` not recognised', init)
     for b in sorted(builders):
         fi = m.method(UDP, b, inherited=False)
         ctx.analysed(fi)
